@@ -194,7 +194,14 @@ func (c Case) HasTag(t string) bool {
 type Rng struct{ s uint64 }
 
 // NewRng seeds a generator.
-func NewRng(seed uint64) *Rng { return &Rng{s: seed*0x9E3779B97F4A7C15 + 0x1234567} }
+func NewRng(seed uint64) *Rng {
+	// run the finalizer over the seed first: otherwise NewRng(seed+1) is NewRng(seed) shifted by one draw
+	z := seed + 0x9E3779B97F4A7C15
+	z = (z ^ (z >> 30)) * 0xBF58476D1CE4E5B9
+	z = (z ^ (z >> 27)) * 0x94D049BB133111EB
+	z ^= z >> 31
+	return &Rng{s: z ^ 0x1234567}
+}
 
 // Next returns the next 64 random bits.
 func (r *Rng) Next() uint64 {
